@@ -470,16 +470,19 @@ where
     /// event exists in the future event set.
     #[allow(clippy::should_implement_trait)]
     fn dispatch_event(&mut self) -> bool {
-        if self.future_event_set.is_empty() {
+        // Only look at the next event to decide whether the limit applies.
+        // An event that is not dispatched must stay in place, since fetching
+        // and re-adding it would move it behind other events with the same
+        // timestamp, and would advance the clock of the event set.
+        let Some(time) = self.future_event_set.peek_time() else {
+            return true;
+        };
+
+        if self.limit.applies(self.itr + 1, time) {
             return true;
         }
 
         let (event, time) = self.future_event_set.fetch_next();
-
-        if self.limit.applies(self.itr + 1, time) {
-            self.future_event_set.add(time, event);
-            return true;
-        }
 
         self.itr += 1;
 
